@@ -149,6 +149,11 @@ theorem ownEvs_clean (env : Env) (kw : Kw) (v : J) (ch : List Ev) (hch : cleanL 
 theorem oneOfReason_clean (subs : List (List Ev)) : (oneOfReason subs).all (fun f => !f.fromValue) = true := by
   unfold oneOfReason; split <;> simp [Frag.fromValue]
 
+theorem discEvs_clean (kw : Kw) (v : J) : cleanL (discEvs kw v) = true := by
+  unfold discEvs
+  cases discCheck kw v <;>
+    simp [cleanL, Ev.clean, Err.clean, discMissingErr, discNotStringErr, discUnmappedErr, mark, Frag.fromValue]
+
 theorem evCombine_clean (env : Env) (kw : Kw) (a b c : List S) (sc : Bool) (v : J)
     (notEvs : List Ev) (oneSubs anySubs allSubs : List (List Ev)) (childEvs : List Ev)
     (hNot : cleanL notEvs = true) (h1 : cleanLL oneSubs = true) (h2 : cleanLL anySubs = true) (h3 : cleanLL allSubs = true)
@@ -161,7 +166,7 @@ theorem evCombine_clean (env : Env) (kw : Kw) (a b c : List S) (sc : Bool) (v : 
     · split <;> simp [cleanL, Ev.clean, Err.clean, nullErr, Frag.fromValue]
     · simp only [cleanL_append, hNot, Bool.true_and, Bool.and_eq_true]
       refine ⟨⟨⟨?_, ?_⟩, ?_⟩, ?_⟩
-      · split <;> simp [cleanL, Ev.clean, Err.clean, here, h1, oneOfReason_clean]
+      · split <;> simp [cleanL, cleanL_append, discEvs_clean, Ev.clean, Err.clean, here, h1, oneOfReason_clean]
       · split <;> simp [cleanL, Ev.clean, Err.clean, here, h2, Frag.fromValue]
       · split <;> simp [cleanL, Ev.clean, Err.clean, here, h3, Frag.fromValue]
       · split
@@ -205,13 +210,15 @@ theorem reasons_value_free_all (env : Env) :
     (∀ s v, cleanL (events env s v) = true) ∧
     (∀ p ad has whole kvs, cleanL (propsEvs env p ad has whole kvs) = true) ∧
     (∀ s xs i, cleanL (itemsEvs env s xs i) = true) ∧
-    (∀ ss v, cleanLL (eventsEach env ss v) = true) := by
+    (∀ ss v, cleanLL (eventsEach env ss v) = true) ∧
+    (∀ dr ss v, cleanLL (eventsSel env dr ss v) = true) := by
   refine events.mutual_induct
     (motive1 := fun s v => cleanL (events env s v) = true)
     (motive2 := fun p ad has whole kvs => cleanL (propsEvs env p ad has whole kvs) = true)
     (motive3 := fun s xs i => cleanL (itemsEvs env s xs i) = true)
     (motive4 := fun ss v => cleanLL (eventsEach env ss v) = true)
-    ?node ?pnil ?pcons ?inil ?icons ?enil ?econs
+    (motive5 := fun dr ss v => cleanLL (eventsSel env dr ss v) = true)
+    ?node ?pnil ?pcons ?inil ?icons ?enil ?econs ?snil ?scons
   case node =>
     intro kw a b c n i p ad v ihn ihc ihb iha ihch
     rw [events.eq_def]
@@ -235,6 +242,11 @@ theorem reasons_value_free_all (env : Env) :
   case icons => intro s x xs i ih1 ih2; rw [itemsEvs]; simp [cleanL, Ev.clean, ih1, ih2]
   case enil => intro v; simp [eventsEach, cleanLL]
   case econs => intro s ss v ih1 ih2; rw [eventsEach]; simp [cleanLL, ih1, ih2]
+  case snil => intro dr v; simp [eventsSel, cleanLL]
+  case scons =>
+    intro dr s ss v ih1 ih2
+    rw [eventsSel]
+    cases selOK dr s <;> simp [cleanLL, ih1, ih2, skipped, skippedErr, cleanL, Ev.clean, Err.clean]
 
 theorem reasons_value_free (env : Env) (s : S) (v : J) : cleanL (events env s v) = true :=
   (reasons_value_free_all env).1 s v
